@@ -35,4 +35,18 @@ func init() {
 		}})
 	registerGoLite(glGroup{id: "golitec02", out: "GoLiteC02.v", pkgDir: "slottools",
 		funcs: []glFunc{{name: "CalcEpochForSlot"}, {name: "CalcEpochLimits"}, {name: "Uint64RangesHavePartialOverlapIncludingEdges"}}})
+	registerGoLite(glGroup{id: "golitec06", out: "GoLiteC06.v", pkgDir: "gsfa/linkedlog",
+		funcs: []glFunc{
+			{recv: "Bitmap", name: "Get"}, {recv: "Bitmap", name: "Set"}, {recv: "Bitmap", name: "IsEmpty"},
+			{recv: "OffsetAndSizeAndSlot", name: "HasMeta"}, {recv: "OffsetAndSizeAndSlot", name: "SetHasMeta"},
+			{recv: "OffsetAndSizeAndSlot", name: "IsSuccess"}, {recv: "OffsetAndSizeAndSlot", name: "SetIsSuccess"},
+			{recv: "OffsetAndSizeAndSlot", name: "IsVote"}, {recv: "OffsetAndSizeAndSlot", name: "SetIsVote"},
+			{recv: "OffsetAndSizeAndSlot", name: "Bytes"}, {recv: "OffsetAndSizeAndSlot", name: "FromBytes"},
+			{recv: "uvarintReader", name: "ReadUvarint"}, {recv: "uvarintReader", name: "ReadByte"},
+			{recv: "OffsetAndSizeAndSlot", name: "FromReader"},
+			{name: "encodeUvarint"},
+		},
+		externs: []string{"binary.AppendUvarint", "binary.Uvarint", "binary.PutUvarint:out0", "slices.Clip"},
+		devirt:  map[string]string{"UvarintReader": "uvarintReader"},
+	})
 }
